@@ -144,7 +144,20 @@ class Corpus:
                     decode_rec.record_decode(0, None, 2, via="parse", frame=decode_rec.frame_of(bytes(payload)), validate=0)
                     omit = True
                     meta["after_nondefault_options"] = True
-                r, msg = decode_rec.record_decode(rid, payload, labelmsm, via=via, frame=frame, validate=validate, omit=omit)
+                if rid % 8 == 5 and via == "ctor" and payload is not None and len(payload) <= 1023:
+                    # entry-point dimension: the same payload through the STATIC PARSER (as a valid frame)
+                    r, msg = decode_rec.record_decode(rid, None, labelmsm, via="parse", frame=decode_rec.frame_of(bytes(payload)), validate=1, omit=omit)
+                    meta["via_static_parser"] = True
+                elif rid % 8 == 7 and via == "ctor" and payload is not None and len(payload) >= 2:
+                    # entry-point dimension: the same payload through a stream reader with validation OFF
+                    # (judged like the constructor: the frame is valid, the decode must be the same)
+                    r, msg = decode_rec.record_decode(rid, payload, labelmsm, via="reader", validate=0)
+                    if r["out"] == "raise" and r["cls"] == "RuntimeError":
+                        r, msg = decode_rec.record_decode(rid, payload, labelmsm, via=via, frame=frame, validate=validate, omit=omit)
+                    else:
+                        meta["via_reader_validate0"] = True
+                else:
+                    r, msg = decode_rec.record_decode(rid, payload, labelmsm, via=via, frame=frame, validate=validate, omit=omit)
         except common.Watchdog:
             r, msg = decode_rec.record_decode(rid, b"", labelmsm)      # placeholder record
             r.update(p=list(payload or b""), out="raise", cls="Watchdog(no termination)", lib=False)
